@@ -89,7 +89,7 @@ CLAIMED = {
     ref="4.8", technique="Coq proof: timed invariants closed by lia over all op lists; timeout conditions translated from the source each run; differential execution under a virtual clock",
     note="Trusted: Coq kernel, py2v translator, extraction+driver, harness with virtual clock (integer advances so float comparison is exact). disconnect() states and the WebSocket zero-length-write refresh are not modelled."),
  "C09": dict(
-    text="Proof: small-step model of loop_forever (first-connection loop with retry_first_connection, inner loop, should_exit, _reconnect_wait with early exit, reconnect with OSError handling, CONNACK reset, downgrade retry) driven by an arbitrary script of attempt outcomes and an application action at any callback or sleep chunk: the j-th wait since the last accepted CONNACK chooses min(min*2^j, max), never below min; loop_forever ends only because the script ended, the application acted, reconnect_on_failure is off, or with the documented OSError of a refused first attempt without retry_first; after disconnect()/stop or the first loss with reconnect_on_failure off no further attempt is made and the machine is Done within 8*|script|+9 steps. The delay update is generated from the source and bridged. NOT proved in general: the literal gap statement (failure -> exactly one full wait -> retry; downgrade retry immediate and uncounted) - it is a Definition, machine-checked by vm_compute on all scripts up to length 5 x 4 (min,max) x retry_first, and compared on the real loop_forever in every run.",
+    text="Proof: small-step model of loop_forever (first-connection loop with retry_first_connection, inner loop, should_exit, _reconnect_wait with early exit, reconnect with OSError handling, CONNACK reset, downgrade retry) driven by an arbitrary script of attempt outcomes and an application action at any callback or sleep chunk: the j-th wait since the last accepted CONNACK chooses min(min*2^j, max), never below min; loop_forever ends only because the script ended, the application acted, reconnect_on_failure is off, or with the documented OSError of a refused first attempt without retry_first; after disconnect()/stop or the first loss with reconnect_on_failure off no further attempt is made and the machine is Done within 8*|script|+9 steps. The delay update is generated from the source and bridged. The literal gap statement (a failure or loss noticed at tf is followed by the next attempt exactly at tf + min(min*2^i, max), i = retries since the last accepted CONNACK; the downgrade retry immediate and uncounted; hence never sooner than min_delay) is proved for every configuration, script, start time and application action (three-phase invariant carried together with the finality invariant); it is also evaluated by vm_compute on all scripts up to length 4 and compared on the real loop_forever in every run.",
     ref="4.9", technique="Coq proof: closed form of the delay sequence, finality and termination over all attempt scripts; delay update translated from the source; the real loop_forever run under a virtual clock and scripted socket factory",
     note="Trusted: Coq kernel, py2v translator, extraction+driver, harness (time.sleep/select/time_func virtual). _reconnect_wait's sleep loop is summarised in one-second chunks; loop_forever's control flow is hand-modelled and tied by correspondence."),
 }
